@@ -48,7 +48,7 @@ def mc_explore(sc, tcases, maxlen, liveness=False, timeout=1800, tag="mc"):
         if cids:
             lasso = {"c": int(cids[-1]) - 1,
                      "w": [int(x) for x in re.findall(r"\d+", ws[-1])] if ws else [],
-                     "actions": re.findall(r"<(\w+) line \d+", r.out)}
+                     "actions": re.findall(r'/\\ pc = "(\w+)"', r.out)}
         r.error = None
     else:
         tlc_must(r, "ParserMC")
@@ -229,4 +229,246 @@ def c01(tier):
     }
     rep.assumptions = ["TLC/SANY, CommunityModules Json", "Go toolchain", "text renderer and table scraper (lib/pcase.py)",
                        "inputs: every string up to the per-grammar length bound + random derivations/mutations up to 40 tokens"]
+    return rep.finish("model_checking")
+
+
+# =========================================================================== shared driver
+
+def explore(rep, sc, cases, chk_of, cap, fullcap, with_error, rng, nsent, budget=60, trace_cap=20000):
+    """generate/build/run/obs/trace. chk_of(case) -> list of predicate names.
+    Returns dict with acc, truns, bad, tv, tlc results, runner, idx."""
+    lox, mod, acc, runner = prepare(sc, cases)
+    if not acc:
+        raise Infra("no grammar was accepted")
+    rejected = [c for c in cases if not c["gen"]["ok"]]
+    for c in rejected:
+        if c["gen"]["panic"]:
+            rep.note("lox panicked on %s" % c["id"])
+    log("%s: %d cases, %d accepted" % (rep.prop, len(cases), len(acc)))
+    extra = {}
+    for c in acc:
+        try:
+            extra[c["id"]] = random_sentences(c, rng, nsent)
+        except Exception:
+            extra[c["id"]] = []
+    jobs = lang_jobs(acc, cap, fullcap, with_error=with_error, extra=extra, budget=budget)
+    recs, hangs = run_jobs(sc, runner, jobs)
+    idx = {c["gen"]["pkg"]: i for i, c in enumerate(acc)}
+    tcases = [tlc_case(c) for c in acc]
+    truns = [tlc_run(x, idx[x["case"]], chk_of(acc[idx[x["case"]]])) for x in recs]
+    bad, ro = run_obs(sc, tcases, truns, tag="obs")
+    full = [r for r in truns if r["full"]]
+    if len(full) > trace_cap:
+        rng.shuffle(full)
+        full = full[:trace_cap]
+    tv, rt = run_trace(sc, tcases, full, tag="trace")
+    drift = [(i, r) for i, r in enumerate(full) if tv.get(i, {}).get("tv") not in ("ok", "truncated")]
+    if drift:
+        rep.note("DRIFT: %d of %d recorded runs are not behaviours of ParserRT (e.g. grammar %s input %s: %s)" % (
+            len(drift), len(full), acc[drift[0][1]["c"] - 1]["id"], drift[0][1]["w"],
+            json.dumps(tv.get(drift[0][0], {}))[:600]))
+    tvrun = {id(r): tv.get(i, {}) for i, r in enumerate(full)}
+    return {"acc": acc, "truns": truns, "bad": bad, "tv": tv, "tvrun": tvrun, "full": full, "drift": drift, "ro": ro, "rt": rt,
+            "runner": runner, "idx": idx, "tcases": tcases, "hangs": hangs, "cases": cases}
+
+
+def std_coverage(rep, X, extra_rule, nontrivial):
+    tv = X["tv"]
+    rep.coverage.update({
+        "states": X["ro"].distinct + X["rt"].distinct + rep.coverage.get("model_states", 0),
+        "transitions": X["ro"].states + X["rt"].states + rep.coverage.get("model_transitions", 0),
+        "traces_validated_against_impl": len([1 for v in tv.values() if v.get("tv") == "ok"]),
+        "evaluations": len(X["truns"]), "distinct_nontrivial": nontrivial, "rule": extra_rule,
+        "grammars_generated": len(X["cases"]), "grammars_accepted": len(X["acc"]),
+        "real_runs": len(X["truns"]), "trace_runs": len(X["full"]), "trace_drift": len(X["drift"]),
+        "samples": [{"grammar": render_lox(X["acc"][0]),
+                     "inputs": [r["w"] for r in X["truns"][:6]]},
+                    {"grammar": render_lox(X["acc"][-1]), "run": X["full"][-1] if X["full"] else None}],
+    })
+    rep.assumptions = ["TLC/SANY, CommunityModules Json", "Go toolchain",
+                       "text renderer and table scraper (lib/pcase.py)",
+                       "per-grammar input bound; random grammars and long inputs are samples"]
+
+
+# =========================================================================== C03
+
+def c03(tier):
+    rep = Report("C03", tier)
+    sc = scratch("c03")
+    rng = random.Random(seed())
+    quick = tier == "quick"
+    cases = grams.curated("lang")
+    cases += grams.random_grammars(seed() + 3, 60 if quick else 600, prefix="rnd3", sugar=0.45)
+    for c in cases:
+        c["bounds"] = False
+    X = explore(rep, sc, cases, lambda c: ["c03"], 400 if quick else 3000, 400 if quick else 3000,
+                False, rng, 10 if quick else 40)
+    acc, truns = X["acc"], X["truns"]
+    for b in X["bad"]:
+        run, c = truns[b["r"]], acc[b["c"]]
+        what = "amb" if b["bad"] == ["amb"] else "actions-differ"
+        if what == "amb":
+            rep.note("ambiguous sentence in an accepted grammar (reported under C04): %s %s" % (c["id"], run["w"]))
+            continue
+        rep.failure("c03.%s:%s" % (what, c["id"]),
+                    "grammar %s, sentence %s: recorded action calls differ from the post-order of the derivation tree" % (c["id"], run["w"]),
+                    replay_of(c, run["w"], {"recorded": [e for e in run["events"] if e["e"] == "act"], "expected": b.get("exp")}))
+    sent = {}
+    for r in truns:
+        if r["ok"] and not r["errs"] and r["nact"] > 0:
+            sent[r["c"]] = sent.get(r["c"], 0) + 1
+    std_coverage(rep, X, "grammars: curated + seeded random rich in sugar; every string up to the per-grammar bound and "
+                 "random derivations with full action logs; non-trivial = accepted grammar with >= 3 sentences whose "
+                 "action sequence was compared with the oracle tree", len([1 for v in sent.values() if v >= 3]))
+    rep.coverage["sentences_compared"] = sum(sent.values())
+    return rep.finish("model_checking")
+
+
+# =========================================================================== C16
+
+def c16(tier):
+    rep = Report("C16", tier)
+    sc = scratch("c16")
+    rng = random.Random(seed())
+    quick = tier == "quick"
+    base = grams.curated("bounds") + [c for c in grams.curated("lang")
+                                      if not any(T["k"] == "starF" for r in c["rules"] for p in r["prods"] for T in p["terms"])]
+    rnd = grams.random_grammars(seed() + 16, 50 if quick else 500, prefix="rnd16", sugar=0.4)
+    rnd = [c for c in rnd if not any(T["k"] == "starF" for r in c["rules"] for p in r["prods"] for T in p["terms"])]
+    cases = []
+    for c in base + rnd:
+        a = json.loads(json.dumps(c)); a["bounds"] = True; a["id"] = c["id"] + "+b"
+        b = json.loads(json.dumps(c)); b["bounds"] = False; b["id"] = c["id"] + "-b"
+        cases += [a, b]
+    X = explore(rep, sc, cases, lambda c: ["c16"] if c["bounds"] else ["c03", "c16n"],
+                300 if quick else 2500, 300 if quick else 2500, False, rng, 10 if quick else 40)
+    acc, truns = X["acc"], X["truns"]
+    for b in X["bad"]:
+        run, c = truns[b["r"]], acc[b["c"]]
+        if b["bad"] == ["amb"]:
+            continue
+        kind = "bounds-differ" if "c16" in b["bad"] else ("called-without-method" if "c16n" in b["bad"] else "presence-changes-parse")
+        rep.failure("c16.%s:%s" % (kind, c["id"]),
+                    "grammar %s, sentence %s: recorded action/_onBounds calls differ from the tree spans" % (c["id"], run["w"]),
+                    replay_of(c, run["w"], {"recorded": [e for e in run["events"] if e["e"] in ("act", "bounds")], "expected": b.get("exp")}))
+    nb = {}
+    for r in truns:
+        if r["full"] and acc[r["c"] - 1]["bounds"]:
+            n = len([1 for e in r["events"] if e["e"] == "bounds"])
+            if n:
+                nb[r["c"]] = nb.get(r["c"], 0) + 1
+    std_coverage(rep, X, "each grammar generated twice (parser type with and without _onBounds); non-trivial = grammar "
+                 "variant with _onBounds with >= 3 sentences on which _onBounds was called", len([1 for v in nb.values() if v >= 3]))
+    rep.coverage["sentences_with_bounds_calls"] = sum(nb.values())
+    return rep.finish("model_checking")
+
+
+# =========================================================================== C09
+
+def c09(tier):
+    rep = Report("C09", tier)
+    sc = scratch("c09")
+    rng = random.Random(seed())
+    quick = tier == "quick"
+    cases = grams.curated("err") + grams.curated("lang")[:12]
+    cases += grams.random_grammars(seed() + 9, 60 if quick else 600, prefix="rnd9", sugar=0.2, err=0.12)
+    # (d) rebuilds the consumed symbols from the action arguments: no `*!` (it drops elements)
+    cases = [c for c in cases if not any(T["k"] == "starF" for r in c["rules"] for p in r["prods"] for T in p["terms"])]
+    for c in cases:
+        c["bounds"] = False
+    X = explore(rep, sc, cases, lambda c: ["c09"], 500 if quick else 4000, 500 if quick else 4000,
+                True, rng, 6 if quick else 30, budget=80)
+    acc, truns = X["acc"], X["truns"]
+    for h in X["hangs"]:
+        c = acc[X["idx"][h[0]]]
+        rep.failure("c09.silent-spin:" + c["id"], "parse() spins without calling the lexer or an action on %s" % h[1],
+                    replay_of(c, h[1]))
+    def livelock_sig(run):
+        """budget exceeded: classify from the real trace tail"""
+        ev = run["events"]
+        if not ev:
+            return "c09.no-termination"
+        tail = ev[len(ev) // 2:]
+        reads = [e for e in tail if e["e"] == "read"]
+        errdeliv = [e for e in tail if e["e"] == "act" and any(a["k"] == "x" for a in e["args"])]
+        if not reads and errdeliv:
+            return "c09.recover-livelock-zero-progress"
+        return "c09.no-termination"
+    for b in X["bad"]:
+        run, c = truns[b["r"]], acc[b["c"]]
+        tvr = X["tvrun"].get(id(run), {})
+        for k in b["bad"]:
+            if k == "c09a":
+                if run["budget"]:
+                    sig = livelock_sig(run)
+                else:
+                    sig = "c09.panic:" + c["id"]
+                desc = "grammar %s input %s: %s" % (c["id"], run["w"], "exceeded the callback budget (does not terminate)" if run["budget"] else "panic " + run["panic"])
+            elif k == "c09b":
+                sig = "c09.silent-accept:" + c["id"]
+                desc = "grammar %s input %s accepted without delivering an Error although not a sentence" % (c["id"], run["w"])
+            elif k == "c09c":
+                if run["budget"]:
+                    continue    # reported once, as non-termination
+                if run["errs"][0] > b["fb"] and tvr.get("tv") == "ok" and b["fb"] in tvr.get("lost", []):
+                    sig = "c09.first-error-discarded-by-later-recovery"
+                else:
+                    sig = "c09.first-error-wrong-token:" + c["id"]
+                desc = "grammar %s input %s: first Error delivered carries token %d, first offending token is %d" % (
+                    c["id"], run["w"], run["errs"][0], b["fb"])
+            else:
+                continue
+            rep.failure(sig, desc, replay_of(c, run["w"], {"observed": {"ok": run["ok"], "errs": run["errs"], "budget": run["budget"]},
+                                                          "first_bad": b.get("fb")}))
+    for run in X["full"]:
+        tvr = X["tvrun"].get(id(run), {})
+        if tvr.get("tv") == "ok" and tvr.get("consumed") is False:
+            c = acc[run["c"] - 1]
+            rep.failure("c09.consumed-not-a-sentence:" + c["id"],
+                        "grammar %s input %s: parse returned true but the symbols it consumed are not a sentence" % (c["id"], run["w"]),
+                        replay_of(c, run["w"]))
+    # termination as a liveness property of the model loaded with the real tables
+    mck = 3 if quick else 4
+    tc_err = []
+    for t in X["tcases"]:
+        t2 = dict(t); t2["alphabet"] = [1] + t["alphabet"]
+        tc_err.append(t2)
+    remaining = list(range(len(tc_err)))
+    lassos = 0
+    states = 0
+    for attempt in range(12):
+        sub = [tc_err[i] for i in remaining]
+        if not sub:
+            break
+        mcbad, lasso, rm = mc_explore(sc, sub, mck, liveness=True, tag="mc%d" % attempt, timeout=1500)
+        states += rm.distinct
+        if not lasso:
+            break
+        ci = remaining[lasso["c"]]
+        c = acc[ci]
+        # replay the lasso's input on the real parser: only real behaviour counts
+        rr, hh = run_jobs(sc, X["runner"], [{"case": c["gen"]["pkg"], "alphabet": [], "maxlen": -1, "fulllen": 0,
+                                             "extra": [lasso["w"]], "budget": 80}], shards=1)
+        if hh or (rr and rr[0]["budget"]):
+            lassos += 1
+            inj = "rec_inner" in lasso["actions"] and "run" in lasso["actions"]
+            rep.failure("c09.recover-livelock-zero-progress" if inj else "c09.no-termination",
+                        "grammar %s input %s: ParserRT lasso (%s) reproduced on the real parser" % (
+                c["id"], lasso["w"], "recovery injects ERROR without consuming input" if inj else "silent loop"),
+                replay_of(c, lasso["w"], {"lasso_actions": lasso["actions"][-12:]}))
+        else:
+            rep.note("model lasso not reproduced on the real parser: %s %s" % (c["id"], lasso["w"]))
+        remaining.remove(ci)
+    rep.coverage["model_states"] = states
+    rep.coverage["model_maxlen"] = mck
+    rep.coverage["model_lassos_reproduced"] = lassos
+    nerr = {}
+    for r in truns:
+        if r["errs"]:
+            nerr[r["c"]] = nerr.get(r["c"], 0) + 1
+    std_coverage(rep, X, "grammars with @error in every position (curated + seeded random, p(err term)=0.12) and without; "
+                 "inputs: every string over terminals + lexer ERROR up to the bound, random sentences and mutations; "
+                 "non-trivial = grammar on which at least 3 inputs delivered an Error to an action",
+                 len([1 for v in nerr.values() if v >= 3]))
+    rep.coverage["runs_with_error_delivered"] = sum(nerr.values())
     return rep.finish("model_checking")
